@@ -30,7 +30,7 @@ using namespace verif;
 namespace AI = AIToolbox;
 namespace M = AIToolbox::MDP;
 
-static const long kFixed = 10;
+static const long kFixed = 12;
 
 long verif::verif_ncases(const std::string & tier) { return kFixed + (tier == "thorough" ? 20000 : 1600); }
 
@@ -287,16 +287,18 @@ static void case_tr(Rng & rng, TR L, const std::string & tier, const Params * fo
 // A model that satisfies IsModel but NOT IsModelEigen: PrioritizedSweeping then takes its generic branch
 // (explicit loop over s1 with getTransitionProbability / getExpectedReward).
 struct PlainModel {
-    const M::Model & m;
+    const M::Model & m; const boost::multi_array<double, 3> * r3;
     size_t getS() const { return m.getS(); }
     size_t getA() const { return m.getA(); }
     double getDiscount() const { return m.getDiscount(); }
     bool isTerminal(size_t s) const { return m.isTerminal(s); }
     std::tuple<size_t, double> sampleSR(size_t s, size_t a) const { return m.sampleSR(s, a); }
     double getTransitionProbability(size_t s, size_t a, size_t s1) const { return m.getTransitionProbability(s, a, s1); }
-    double getExpectedReward(size_t s, size_t a, size_t s1) const { return m.getExpectedReward(s, a, s1); }
+    double getExpectedReward(size_t s, size_t a, size_t s1) const { return (*r3)[s][a][s1]; }
 };
 static_assert(M::IsModel<PlainModel> && !M::IsModelEigen<PlainModel>);
+
+static boost::multi_array<double, 3> g_R3;   // the 3-D rewards the model was built from (getExpectedReward of a dense Model returns the 2-D mean)
 
 template <class Mod>
 static void run_ps(Rng & rng, const Mod & mod, const M::Model & model, const char * kind, bool stepwise) {
@@ -309,9 +311,10 @@ static void run_ps(Rng & rng, const Mod & mod, const M::Model & model, const cha
     for (size_t i = order.size(); i > 1; --i) std::swap(order[i - 1], order[rng.below(i)]);
     if (rng.coin(1, 3)) for (int i = 0; i < 3; ++i) order.push_back(order[rng.below(order.size())]);
     if (rng.coin(1, 10)) order.pop_back();
-    Line l; l << "C11" << (stepwise ? "psw" : "ps") << S << A << model.getDiscount() << theta;
+    Line l; l << "C11" << (stepwise ? "psw" : "ps") << kind << S << A << model.getDiscount() << theta;
     for (size_t s = 0; s < S; ++s) for (size_t a = 0; a < A; ++a) for (size_t s1 = 0; s1 < S; ++s1) l << model.getTransitionProbability(s, a, s1);
     putTable(l, model.getRewardFunction());
+    for (size_t s = 0; s < S; ++s) for (size_t a = 0; a < A; ++a) for (size_t s1 = 0; s1 < S; ++s1) l << g_R3[s][a][s1];
     auto snapshot = [&](Line & o) {
         putTable(o, ps.getQFunction());
         for (size_t s = 0; s < S; ++s) o << ps.getValueFunction().values[s];
@@ -345,23 +348,34 @@ static void run_ps(Rng & rng, const Mod & mod, const M::Model & model, const cha
     std::printf("#stat ps-%s%s 1\n", kind, stepwise ? "-stepwise" : "");
 }
 
-static void case_ps(Rng & rng, const std::string & tier, int kind = -1, int stepwise = -1) {
+static void case_ps(Rng & rng, const std::string & tier, int kind = -1, int stepwise = -1, int tiny = -1) {
     size_t S = (size_t)rng.range(2, tier == "thorough" ? 5 : 4), A = (size_t)rng.range(1, 3);
     double g = pickD(rng, {0.5, 0.75, 0.875, 0.5});
     boost::multi_array<double, 3> T(boost::extents[S][A][S]), R(boost::extents[S][A][S]);
     bool sparse = rng.coin();
+    if (kind < 0) kind = (int)rng.below(3);
+    // a transition of probability 2^-21 (< the library's 1e-6 "small" tolerance, but not zero) in some rows
+    bool withTiny = tiny < 0 ? (kind != 1 && rng.coin(1, 6)) : tiny != 0;
+    const double eps = std::ldexp(1.0, -21);
     for (size_t s = 0; s < S; ++s) for (size_t a = 0; a < A; ++a) {
         std::vector<int> k(S, 0);
         if (sparse) { size_t t1 = rng.below(S), t2 = rng.below(S); int h = (int)rng.range(0, 8); k[t1] += h; k[t2] += 8 - h; }
         else for (int i = 0; i < 8; ++i) k[rng.below(S)]++;
         for (size_t s1 = 0; s1 < S; ++s1) { T[s][a][s1] = k[s1] / 8.0; R[s][a][s1] = (double)rng.range(-8, 8) / 4; }
+        if (withTiny && (tiny > 0 || rng.coin())) {
+            size_t from = 0, to = 0;
+            for (size_t s1 = 0; s1 < S; ++s1) if (k[s1] > k[from]) from = s1;
+            for (size_t s1 = 0; s1 < S; ++s1) if (k[s1] == 0) to = s1;
+            if (k[to] == 0 && from != to) { T[s][a][from] -= eps; T[s][a][to] = eps; R[s][a][to] = 8.0; }
+        }
     }
     M::Model model(S, A, T, R, g);
-    if (kind < 0) kind = (int)rng.below(3);
+    g_R3.resize(boost::extents[S][A][S]); g_R3 = R;
     bool sw = stepwise < 0 ? rng.coin(1, 3) : stepwise != 0;
+    if (withTiny) std::printf("#stat ps-tiny-probability 1\n");
     if (kind == 0) run_ps(rng, model, model, "dense", sw);
     else if (kind == 1) { M::SparseModel sm(model); run_ps(rng, sm, model, "sparse", sw); }
-    else { PlainModel pm{model}; run_ps(rng, pm, model, "generic", sw); }
+    else { PlainModel pm{model, &g_R3}; run_ps(rng, pm, model, "generic", sw); }
 }
 
 // ---------------------------------------------------------------- DynaQ batch
@@ -445,6 +459,9 @@ void verif::verif_case(Rng & rng, long idx, const std::string & tier) {
             // witnesses of the known finding C11-trace-cutoff-above-one (setTolerance is unguarded)
             case 8: { p.tol = 2.0; p.maxSteps = 3; case_tr(rng, SARSAL_, tier, &p, false); break; }
             case 9: { p.tol = 2.0; p.maxSteps = 3; case_tr(rng, CQL, tier, &p, false); break; }
+            // same MDP family with a 2^-21 transition: the dense (Eigen) branch honours it, the generic branch drops it
+            case 10: case_ps(rng, tier, 0, 0, 1); break;
+            case 11: case_ps(rng, tier, 2, 0, 1); break;
         }
         return;
     }
